@@ -991,6 +991,22 @@ where
         self.observer.try_dump_old_blob_indexes().await
     }
 
+    /// Verification hook: wait for background maintenance to become idle (see `Observer::verif_quiesce`).
+    #[cfg(pearl_verif)]
+    pub async fn verif_quiesce(&self) -> bool {
+        self.observer.verif_quiesce().await
+    }
+
+    /// Verification hook: un-synced bytes of the active blob, if any.
+    #[cfg(pearl_verif)]
+    pub async fn verif_dirty_bytes(&self) -> Option<u64> {
+        let safe = self.inner.safe.read().await;
+        match safe.active_blob.as_ref() {
+            Some(b) => Some(b.read().await.file_dirty_bytes()),
+            None => None,
+        }
+    }
+
     fn launch_observer(&mut self) {
         self.observer.run();
     }
